@@ -113,6 +113,7 @@ def run(rep, prog, tier):
     r6(rep, prog)
     r7(rep, prog)
     r8(rep, prog)
+    publish_only_alive(rep, prog, "C11-R8")
 
 
 def r1(rep, prog):
@@ -399,6 +400,26 @@ def r8(rep, prog):
     rep.check(not bad, R, "an error after the in-memory switch kills the updater", "%d kill site(s) on the error paths" % len(kills),
               "the commit task can fail (save_metas) after SegmentManager::commit has already installed the new commit in memory, and the updater stays alive: the next merge's save_metas writes these "
               "segments into meta.json under the previous commit's opstamp and payload — a commit that returned Err becomes visible", site=site(b, bad[0]) if bad else b.span)
+
+
+def publish_only_alive(rep, prog, R):
+    """a killed updater publishes nothing"""
+    from ..rules import dominating_guards, guard_evidence
+    fid = SU + "SegmentUpdater::save_metas"
+    b = get_body(rep, prog, R, fid)
+    if b is None:
+        return
+    pubs = [(bi, t) for bi, t in b.calls() if (t.get("res") or t.get("f") or "") == SU + "save_metas"]
+    if not rep.check(len(pubs) >= 1, R, "SegmentUpdater::save_metas writes meta.json through save_metas()", "%d call(s)" % len(pubs), "cannot establish: the free function save_metas is not called from SegmentUpdater::save_metas", site=b.span):
+        return
+    for bi, t in pubs:
+        ev = set()
+        for sb, arms, l in dominating_guards(b, bi):
+            ev |= {x[:2] for x in guard_evidence(prog, b, l)}
+        okk = any(e[0] == "call" and e[1].endswith("SegmentUpdater::is_alive") for e in ev)
+        rep.check(okk, R, "meta.json is only written while the updater is alive", "guarded by is_alive()",
+                  "SegmentUpdater::save_metas writes meta.json without testing is_alive(): a task that was already queued on the updater thread when the writer was rolled back, dropped or killed after a failed commit "
+                  "still runs, and overwrites the meta.json of the replacement writer with the dead updater's own segment list and opstamp — a reader that reloads goes back to an older commit", site=site(b, bi))
 
 
 def r5(rep, prog):
